@@ -22,7 +22,8 @@ func c18DumpHeader(h *handshake.Header) v.Dump {
 }
 
 // TestVerifC18Handshake: the 12-byte handshake header (id 2), the handshake envelope and the
-// individual messages (ids 11-17).
+// individual messages (ids 11-17), and - monitors only, no Coq model yet - the hello messages,
+// ServerKeyExchange, CertificateRequest, the DTLS 1.3 messages and their envelope (ids 101-109).
 func TestVerifC18Handshake(t *testing.T) {
 	hdr := &v.Codec{
 		Name: "hs_header", ID: 2,
@@ -48,5 +49,5 @@ func TestVerifC18Handshake(t *testing.T) {
 			return c18DumpHeader(&h), out, err == nil
 		},
 	}
-	v.Run(t, append([]*v.Codec{hdr}, vhs.Codecs()...))
+	v.Run(t, append(append([]*v.Codec{hdr}, vhs.Codecs()...), vhs.Codecs2()...))
 }
